@@ -7,6 +7,7 @@ package main
 import (
 	"fmt"
 	"reflect"
+	"runtime"
 	"strings"
 	"sync/atomic"
 
@@ -31,6 +32,9 @@ type shape struct {
 	def int         // default for all locations
 	dev map[int]int // deviations
 	n   int         // counter while populating
+	// zero: scalars, strings and arrays keep their zero value (an all-zero UUID, 0, ""): shortcuts
+	// for "placeholder" values are a realistic place for a shared singleton
+	zero bool
 }
 
 func (s *shape) next() int {
@@ -118,6 +122,17 @@ func (p *populator) fill(v reflect.Value) {
 			}
 			v.Set(m)
 		}
+	case reflect.String, reflect.Bool, reflect.Int, reflect.Int8, reflect.Int16, reflect.Int32, reflect.Int64, reflect.Uint, reflect.Uint8, reflect.Uint16, reflect.Uint32, reflect.Uint64:
+		if p.sh.zero {
+			p.b()
+			return
+		}
+		p.fillScalar(v)
+	}
+}
+
+func (p *populator) fillScalar(v reflect.Value) {
+	switch v.Kind() {
 	case reflect.String:
 		v.SetString(fmt.Sprintf("s%d", p.b()))
 	case reflect.Bool:
@@ -363,7 +378,7 @@ func main() {
 		build(probe, 0)
 		nloc := probe.n
 		var shs []*shape
-		shs = append(shs, &shape{def: 2}, &shape{def: 0}, &shape{def: 1})
+		shs = append(shs, &shape{def: 2}, &shape{def: 0}, &shape{def: 1}, &shape{def: 2, zero: true}, &shape{def: 1, zero: true})
 		for i := 0; i < nloc && i < 400; i++ {
 			for _, alt := range []int{0, 1} {
 				shs = append(shs, &shape{def: 2, dev: map[int]int{i: alt}})
@@ -386,7 +401,7 @@ func main() {
 		}
 		for _, sh0 := range shs {
 			for variant := 0; variant < variants; variant++ {
-				fresh := func() interface{} { return build(&shape{def: sh0.def, dev: sh0.dev}, variant) }
+				fresh := func() interface{} { return build(&shape{def: sh0.def, dev: sh0.dev, zero: sh0.zero}, variant) }
 				orig := fresh()
 				atomic.AddInt64(&shapes, 1)
 				before := dump(orig)
@@ -440,6 +455,21 @@ func main() {
 							c.Violation(map[string]string{"kind": "mutation-visible", "type": e.Name, "path": stripIdx(ls2[li].path), "direction": "copy->original"}, fmt.Sprintf("%s: changing copy%s is visible through the original (shape dev %v)", e.Name, ls2[li].path, sh0.dev), e.Name)
 							orig = fresh()
 						}
+					}
+					// copies must not depend on each other either (a shared placeholder returned for "empty" values):
+					// after every location of earlier copies has been changed, a new copy still equals the original
+					if cp3 := copyFn(orig); dump(orig) == before {
+						if d3 := dump(cp3); !sameDump(d3, before, cp3, orig) {
+							c.Violation(map[string]string{"kind": "copy-depends-on-earlier-copy", "type": e.Name, "path": firstDiff(reflect.ValueOf(orig), reflect.ValueOf(cp3))}, fmt.Sprintf("%s: after earlier copies were modified, a new copy differs from the (unchanged) original (shape dev %v zero=%v)\n orig %s\n copy %s", e.Name, sh0.dev, sh0.zero, clip(before), clip(d3)), e.Name)
+						}
+						ac3 := map[uintptr]string{}
+						addrs(reflect.ValueOf(cp3), ac3, "", 0)
+						for a, p := range ac3 {
+							if p1, shared := ac[a]; shared {
+								c.Violation(map[string]string{"kind": "shared-memory-between-copies", "type": e.Name, "path": stripIdx(p)}, fmt.Sprintf("%s: two copies of one original share memory: copy%s and copy%s (shape dev %v zero=%v)", e.Name, p, p1, sh0.dev, sh0.zero), e.Name)
+							}
+						}
+						runtime.KeepAlive(cp) // ac holds bare addresses: the first copy must stay allocated until here, or its memory is reused
 					}
 					// and the reverse: mutate the original, the copy must stay put
 					var lo []location
